@@ -2,6 +2,7 @@ package c20
 
 import (
 	"flag"
+	"os"
 	"testing"
 
 	"github.com/thushan/olla/verifharness/ev"
@@ -37,6 +38,15 @@ func fuzzJudge(t *testing.T, target, prof string, data []byte) {
 	}
 }
 
+// home returns to the package directory: getSUT() changed into the repository to load the shipped
+// profiles, and testing reads (and, when fuzzing, writes) testdata/fuzz/<Target> relative to the
+// working directory — crashers must land here, never in the repository.
+func home(f *testing.F) {
+	if err := os.Chdir(pkgDir); err != nil {
+		f.Fatal(err)
+	}
+}
+
 // addSeeds registers the group's seeds and hostile constants (the very large ones only slow the mutator down).
 func addSeeds(groups []string, add func(i int, data []byte)) {
 	i := 0
@@ -59,6 +69,7 @@ func FuzzParseModels(f *testing.F) {
 	if err != nil {
 		f.Fatal(err)
 	}
+	home(f)
 	addSeeds([]string{"models"}, func(i int, d []byte) { f.Add(byte(i), d) })
 	f.Fuzz(func(t *testing.T, prof byte, data []byte) {
 		fuzzJudge(t, tParse, s.profiles[int(prof)%len(s.profiles)], data)
@@ -73,6 +84,7 @@ func FuzzMetricsExtract(f *testing.F) {
 	if err != nil {
 		f.Fatal(err)
 	}
+	home(f)
 	addSeeds([]string{"metrics"}, func(i int, d []byte) { f.Add(byte(i), d) })
 	f.Fuzz(func(t *testing.T, prof byte, data []byte) {
 		// gjson's Result.Value() is quadratic in nesting depth (2 s for a 64 KiB chunk, measured on an idle
@@ -92,6 +104,7 @@ func FuzzTransformResponse(f *testing.F) {
 	if _, err := getSUT(); err != nil {
 		f.Fatal(err)
 	}
+	home(f)
 	addSeeds([]string{"response", "error"}, func(_ int, d []byte) { f.Add(d) })
 	f.Fuzz(func(t *testing.T, data []byte) {
 		fuzzJudge(t, tResponse, "", data)
@@ -105,6 +118,7 @@ func FuzzTransformStream(f *testing.F) {
 	if _, err := getSUT(); err != nil {
 		f.Fatal(err)
 	}
+	home(f)
 	addSeeds([]string{"stream"}, func(_ int, d []byte) { f.Add(d) })
 	f.Fuzz(func(t *testing.T, data []byte) {
 		fuzzJudge(t, tStream, "", data)
